@@ -213,13 +213,19 @@ class Path:
         if z3.is_true(g):
             self.results.record(Ob(name, "unsat", detail, ms=0.0))
             return True
-        from .solver2 import cvc5_check
+        from .solver2 import cvc5_check, z3cli_check
         r = None
         model = None
         backend = "z3"
-        order = ["cvc5", "z3"] if self.prefer == "cvc5" else ["z3-short", "cvc5", "z3"]
+        order = ["cvc5", "z3"] if self.prefer == "cvc5" else ["z3cli", "cvc5", "z3"] if self.prefer == "z3cli" else ["z3-short", "cvc5", "z3"]
         for be in order:
-            if be == "cvc5":
+            if be == "z3cli":
+                r2 = z3cli_check(self.pc + [z3.Not(g)], self.timeout_ms)
+                if r2 in ("sat", "unsat"):
+                    r = z3.sat if r2 == "sat" else z3.unsat
+                    backend = "z3-4.8.12"
+                    break
+            elif be == "cvc5":
                 r2 = cvc5_check(self.pc + [z3.Not(g)], self.timeout_ms)
                 if r2 in ("sat", "unsat"):
                     r = z3.sat if r2 == "sat" else z3.unsat
